@@ -21,7 +21,9 @@ _META_ALL = {
                 "not received) within small bounds (MaxPkt 2-3, <=7 bytes, <=2 transfer ends, <=2 un-ACKed packets) "
                 "and proves on it that the host-accepted data (one packet per toggle value) is the input stream, "
                 "transfers end in a short packet/ZLP, retries repeat PID+payload and the toggle moves only on ACK. "
-                "The real USBStreamInEndpoint inside a real USBDevice is then driven with TLC-generated behaviours "
+                "The real USBStreamInEndpoint inside a real USBDevice that also has a second stream IN, a stream OUT and "
+                "the control endpoint (complete transactions on those between a lost ACK and the retry) is then driven "
+                "with TLC-generated behaviours "
                 "and with seeded random/structured streams (MaxPkt 2..64, stalls at packet boundaries, lost ACKs, "
                 "flush, PHY tx_ready stalls, rx_valid gaps); every recorded event trace is validated by TLC against "
                 "the same relation with the Prop invariants evaluated on each observed state.",
